@@ -66,10 +66,14 @@ type Query struct {
 	Hyps    []*Term
 	Goal    *Term // to be proved; nil => satisfiability (cover) query over Hyps
 	IsCover bool
+	Values  []*Term // terms whose model value is requested (get-value) instead of a full model
 }
 
 func (q *Query) SMT(withModel bool) string {
 	c := newSigCollector()
+	for _, a := range q.Values {
+		c.walk(a)
+	}
 	for _, a := range q.Axioms {
 		c.walk(a)
 	}
@@ -144,7 +148,13 @@ func (q *Query) SMT(withModel bool) string {
 		b.WriteString("(assert (not " + q.Goal.String() + "))\n")
 	}
 	b.WriteString("(check-sat)\n")
-	if withModel {
+	if withModel && len(q.Values) > 0 {
+		b.WriteString("(get-value (")
+		for _, t := range q.Values {
+			b.WriteString(" " + t.String())
+		}
+		b.WriteString("))\n")
+	} else if withModel {
 		b.WriteString("(get-model)\n")
 	}
 	return b.String()
